@@ -870,7 +870,8 @@ def api_centroid_sources(view, cfg):
 
 def api_centroid_func(view, cfg):
     from photutils.centroids import centroid_1dg, centroid_2dg, centroid_com, centroid_quadratic
-    fname, isrc = cfg
+    fname, isrc = cfg[:2]
+    line = cfg[2] if len(cfg) > 2 else None      # 'row' / 'col': one whole line of the cutout masked
     func = dict(com=centroid_com, quadratic=centroid_quadratic, g1=centroid_1dg, g2=centroid_2dg)[fname]
     sc = view.scene
     if view.kind != 'T' and view.mode != IDENT:
@@ -878,7 +879,15 @@ def api_centroid_func(view, cfg):
     ix, iy = int(round(sc.pos[isrc, 0])), int(round(sc.pos[isrc, 1]))
     sl = (slice(iy - 6, iy + 7), slice(ix - 8, ix + 7))       # 13 x 15 asymmetric cutout
     cut = sc.img[sl]
-    msk = sc.mask[sl]
+    msk = sc.mask[sl].copy()
+    if line == 'row':
+        msk[3, :] = True          # a fully masked row, two rows below the source (non-square cutout)
+        cut = cut.copy()
+        cut[3, :] = 1.0e4         # ... holding junk
+    elif line == 'col':
+        msk[:, 4] = True
+        cut = cut.copy()
+        cut[:, 4] = 1.0e4
     if view.kind == 'T':
         cut, msk = cut.T.copy(), msk.T.copy()
     c = func(cut, mask=msk)
@@ -937,7 +946,8 @@ APIS = {
     'CurveOfGrowth': (api_curve_of_growth, [(1, 'exact'), (3, 'center'), (5, 'subpixel')], 'ST'),
     'make_model_image': (api_make_model_image, ['gauss2d', 'prf_bbox', 'prf_over'], 'S'),
     'centroid_sources': (api_centroid_sources, ['com', 'quadratic', 'g1', 'g2'], 'ST'),
-    'centroid_func': (api_centroid_func, [(f, i) for f in ('com', 'quadratic', 'g1', 'g2') for i in (1, 4)], 'T'),
+    'centroid_func': (api_centroid_func, [(f, i) for f in ('com', 'quadratic', 'g1', 'g2') for i in (1, 4)]
+                      + [(f, 1, ln) for f in ('com', 'g1', 'g2') for ln in ('row', 'col')], 'T'),
     'centroid_quadratic_peak': (api_centroid_quadratic_peak, [(i, sd) for i in (1, 4) for sd in ('x', 'y', 'none')], 'T'),
 }
 
